@@ -343,6 +343,14 @@ def check_uses_dask(rep, ddf, frames, meta):
                       f'partition_sindex / partition_bounds not taken from the active column {name!r}',
                       {**meta, 'keys': keys, 'got': got_b.tolist(), 'want': want_b.tolist()})
         return
+    # Dask (2026.8) may partition `ddf[col]` differently from `ddf` itself after
+    # sort_values(..).repartition(..) (projection push-down moves the partition boundaries);
+    # cx then pairs bounds and partitions of different partitionings.  A Dask / Dask-cx matter
+    # (reported), not a question of which column is read: such frames are not used further here.
+    whole_b = np.array([np.asarray(p[name].total_bounds, dtype=float) for p in frames])
+    if whole_b.shape != want_b.shape or not bool(np.all((whole_b == want_b) | (np.isnan(whole_b) & np.isnan(want_b)))):
+        rep.count('dask:projection-changes-partitioning')
+        return
     # cx: rows by the active column
     t0 = rng.randint(0, U.NROWS - 2)
     t1 = rng.randint(t0, min(U.NROWS - 1, t0 + 2))
